@@ -521,6 +521,7 @@ func runC08(c *rt.Ctx) {
 	})
 	c.Require("decorated-valid-text", 900)
 	refillRun(c, c.Pick(40000, 400000), "size-text")
+	guardedInputs(c, "C08", "size", []string{"10kB", "1 024 KiB", "0", "7 B", "18446744073709551615", "16 EiB", "1MB", "0YiB", "12_345 B", "1", "12", "123", "1234 ", "12345B", "123456kB", "1234567 MB"})
 	coldStart(c, "C08", 14)
 
 	nBytes := c.Pick(200000, 20000000)
